@@ -72,6 +72,7 @@ RECORDED_CTOR_DEFAULTS = {
 }
 K_AVTYPEONLY = "C12/attribute-value-type-without-text"
 K_CTORMEMBER = "C12/constructor-omits-declared-member"
+K_SELFCONTAINED_XML = "C12/self-contained-rendering-binds-xml-namespace"  # fixed b3cfb249: a recurrence is a violation
 
 _S = {}
 
@@ -851,6 +852,8 @@ def regression_cases(rng):
         c = _cid("saml2.schema.wsdl", name)
         if c is not None:
             yield mk_rt(_blank(c), "regress-wsdl-import")
+    for c in selfcontained_regression():
+        yield c
     # known findings (one minimal witness each)
     c = _cid("saml2.saml", "NameID")
     if c is not None:
@@ -947,6 +950,7 @@ def ctor_default_cases(rng):
 # ------------------------------------------------------------------ serialisation forms and histories
 
 PFX_OK = ["saml", "samlp", "md", "ds", "xenc", "a", "b", "p-1", "q.r", "_u", "saml2p", "SAML", "x1"]
+PFX_FORCE = ["f1", "f2", "fx", "fy", "g-1", "h.2", "_f", "Force", "f\u00e9"]
 PFX_RESERVED_FORM = ["ns0", "ns1", "ns2", "ns3", "ns12"]
 
 
@@ -1029,12 +1033,133 @@ def empty_prefix_safe(inst, uri):
 
 
 def mixed_inst(rng, cid, depth=2):
-    """A clean instance that mixes at least two namespaces (a foreign extension element is added)."""
+    """A clean instance that mixes at least two namespaces: a foreign extension element with a namespace-qualified
+    and a plain attribute (and a child in no namespace) is added."""
     inst = gen_inst(rng, cid, depth, {"rich": True})
-    if T()[cid]["kind"] == "plain" and not any(e["ns"] for e in inst["ee"]):
-        inst["ee"] = inst["ee"] + [{"ns": rng.choice(["urn:x", "http://example.org/ext"]), "tag": "hint",
-                                    "a": [["a", "b"]], "k": [], "t": "t"}]
+    if T()[cid]["kind"] == "plain":
+        ns = rng.choice(["urn:x", "http://example.org/ext"])
+        inst["ee"] = inst["ee"] + [{"ns": ns, "tag": "hint", "a": [["{%s}level" % ns, "3"], ["a", "b"], ["{urn:y}z", "1"]],
+                                    "k": [{"ns": None, "tag": "k", "a": [["{%s}q" % ns, "v"]], "k": [], "t": None}], "t": "t"}]
     return inst
+
+
+def force_nspair(rng, nss):
+    """Prefix map for to_string_force_namespace: ordinary prefixes for some of the instance's namespaces (the
+    names are rewritten to literal prefix:name, so reserved-form prefixes would collide with generated ones)."""
+    nss = [u for u in nss if u not in (XMLNS, "http://www.w3.org/2000/xmlns/", XS, XSI)] or ["urn:unused"]
+    # a pool of its own: a literal xmlns:p next to a prefix p that an earlier to_string(nspair) registered with
+    # ElementTree for another URI would be declared twice (caller-side clash, outside the assumption)
+    ps = rng.sample(PFX_FORCE, min(len(PFX_FORCE), rng.randint(1, len(nss))))
+    return dict(zip(ps, rng.sample(nss, len(ps))))
+
+
+def _drop_nsdecl_attrs(e):
+    """element_to_extension_element copies AttributeValue's literal xmlns:xs into the attribute dict; as attributes of
+    an extension element these are namespace declarations (outside the instance space: consumed by any parser)."""
+    return dict(e, a=[p for p in e["a"] if not p[0].startswith("xmlns")], k=[_drop_nsdecl_attrs(k) for k in e["k"]])
+
+
+def selfcontained_history(resp):
+    return mk_history([{"inst": resp, "form": "to_string", "nspair": None},
+                       {"inst": resp, "form": "selfcontained", "nspair": None, "reuse": True},
+                       {"inst": resp, "form": "to_string", "nspair": None, "reuse": True}], "selfcontained")
+
+
+def selfcontained_regression():
+    """fixed b3cfb249: the minimal input on which the self-contained rendering did not parse — an assertion (as
+    extension element of the EncryptedAssertion) carrying one xml:-qualified attribute."""
+    r, ea = _cid("saml2.samlp", "Response"), _cid("saml2.saml", "EncryptedAssertion")
+    if None in (r, ea):
+        return
+    slot = [j for j, ch in enumerate(T()[r]["children"]) if ch[3] == ea]
+    if not slot:
+        return
+    ext = {"ns": "urn:oasis:names:tc:SAML:2.0:assertion", "tag": "Assertion", "a": [["{%s}lang" % XMLNS, "en"], ["ID", "a1"]],
+           "k": [], "t": None}
+    resp = _blank(r)
+    resp["s"][slot[0]] = [dict(_blank(ea), ee=[ext])]
+    yield selfcontained_history(resp)
+
+
+def selfcontained_cases(rng, tier):
+    """The rendering an IdP performs before encrypting an assertion: a Response whose EncryptedAssertion holds the
+    assertion as an extension-element tree, written by
+    get_xml_string_with_self_contained_assertion_within_encrypted_assertion, then plainly, same object."""
+    import saml2
+
+    r, ea, a = _cid("saml2.samlp", "Response"), _cid("saml2.saml", "EncryptedAssertion"), _cid("saml2.saml", "Assertion")
+    if None in (r, ea, a):
+        return
+    slot = [j for j, ch in enumerate(T()[r]["children"]) if ch[3] == ea]
+    if not slot:
+        return
+    made = 0
+    for _ in range(400 if tier == "quick" else 4000):
+        if made >= (40 if tier == "quick" else 400):
+            break
+        assertion = gen_inst(rng, a, rng.choice([1, 2, 3]), {"rich": True})
+        assertion["ea"] = assertion["ea"] + [["{urn:x}level", "3"]]
+        if rng.random() < 0.5:
+            # xml:-qualified names inside the assertion (fixed b3cfb249: get_prefix_map bound encasN to the xml namespace)
+            assertion["ea"] = assertion["ea"] + [["{%s}lang" % XMLNS, "en"]]
+        ext = _drop_nsdecl_attrs(reflect_ext(saml2.element_to_extension_element(build(assertion))))
+        enc = dict(_blank(ea), ee=[ext])
+        resp = gen_inst(rng, r, 0, {})
+        resp["s"][slot[0]] = [enc]
+        made += 1
+        yield selfcontained_history(resp)
+
+
+def construct_cases(rng, tier):
+    """Falsy / edge constructor arguments: the object is built by the REAL constructor (or set_type + set_text) in
+    the implementation run; the state it ends up in is the instance, which must survive the round trip.
+    AttributeValue: text in None, "", " ", "0", 0, False, True, 1.5, bytes, ordinary; with/without an explicit type;
+    with/without extension elements.  Every other class: text None, "", " ", "0" and set_text of int/bool."""
+    tbl = T()
+    e1 = {"ns": "urn:x", "tag": "e", "a": [], "k": [], "t": None}
+    texts = [None, "", " ", "0", 0, False, True, 1.5, {"bytes": "b\u00e9"}, "x", " x ", "true", "12"]
+    types = [None, "xs:string", "xs:integer", "xs:boolean", "xs:float", "xs:base64Binary", "xs:anyType", "xsd:string", "foo:bar"]
+
+    def mk(cid, how, text, typ=None, ee=(), allow=None):
+        cands = []
+        for v in (text, _json_value(text) if isinstance(text, dict) else None):
+            if isinstance(v, bytes):
+                v = v.decode("utf-8")
+            if v is not None and not isinstance(v, dict):
+                cands += [str(v), str(v).lower(), str(v).strip()]
+        # the text the constructor ends up with is the canonical form of one of the conversions
+        for c in list(cands):
+            for kind in ("int", "float", "bool", "date"):
+                r = _conv(kind, c) if c else None
+                if r:
+                    cands.append(r)
+        return {"op": "construct", "cls": cid, "how": how, "text": text, "type": typ, "ee": list(ee), "allow": allow,
+                "conv": conv_table([c for c in cands if c])}
+
+    for cd in tbl:
+        cid = cd["id"]
+        if cd["kind"] == "attrValue":
+            for text in texts:
+                for ee in ((), (e1,)):
+                    # what the arguments are MEANT to reach on the code as recorded: text that strip() changes next to
+                    # extension elements = the recorded strip behaviour; an explicit typing act (set_type or set_text)
+                    # with no / empty text = the recorded type-without-text state; everything else must round-trip
+                    strips = bool(ee) and isinstance(text, str) and text != text.strip()
+                    yield mk(cid, "ctor", text, None, ee, "avstrip" if strips else None)
+                    if text is not None:
+                        yield mk(cid, "set_text", text, None, ee, "avstrip" if strips else ("avtypeonly" if text == "" else None))
+                    for typ in types[1:]:
+                        yield mk(cid, "typed", text, typ, ee, "avstrip" if strips else ("avtypeonly" if text in (None, "") else None))
+        else:
+            # a class with a parse-time `setdefault` whose constructor leaves that attribute None is the recorded
+            # NameFormat behaviour by plain construction
+            dflt = {k for k, _ in cd["defaults"]}
+            nf = "nf" if any(xml in dflt and init is None for (xml, _m), init in zip(cd["attrs"], cd["init"])) else None
+            for text in (None, "", " ", "0", "x"):
+                yield mk(cid, "ctor", text, allow=nf)
+            if tier != "quick" or cid % 4 == 0:
+                for text in (0, 7, True, False, "", None):
+                    yield mk(cid, "set_text", text, allow=nf)
 
 
 def mk_history(steps, note=None):
@@ -1060,11 +1185,14 @@ def history_cases(rng, tier):
         nss = inst_namespaces(a)
         b = mixed_inst(rng, rng.choice(multi), 1)
         yield mk_history([
+            {"inst": a, "form": "to_string", "nspair": None},
+            {"inst": a, "form": "force", "nspair": force_nspair(rng, nss), "reuse": True},
+            {"inst": a, "form": "to_string", "nspair": None, "reuse": True},
             {"inst": a, "form": "to_string", "nspair": gen_nspair(rng, nss, "reserved-next", [])},
-            {"inst": a, "form": "to_string", "nspair": gen_nspair(rng, nss, "ordinary", [])},
+            {"inst": a, "form": "to_string", "nspair": gen_nspair(rng, nss, "ordinary", []), "reuse": True},
             {"inst": b, "form": "to_string", "nspair": None},
             {"inst": a, "form": "ext", "nspair": None},
-            {"inst": a, "form": "str", "nspair": None},
+            {"inst": a, "form": "str", "nspair": None, "reuse": True},
             {"inst": a, "form": "to_string", "nspair": gen_nspair(rng, nss, rng.choice(NSPAIR_KINDS), PFX_OK[:3])},
             {"inst": b, "form": "to_string", "nspair": None},
         ] + ([{"inst": a, "form": "to_string", "nspair": {"": nss[0]}}] if nss[0] != XMLNS and empty_prefix_safe(a, nss[0]) else []), "forms")
@@ -1072,12 +1200,16 @@ def history_cases(rng, tier):
         steps, registered = [], []
         for _k in range(rng.randint(3, 8)):
             inst = mixed_inst(rng, rng.choice(multi if rng.random() < 0.6 else allc), rng.choice([1, 2]))
-            form = rng.choice(["to_string", "to_string", "to_string", "str", "ext"])
+            form = rng.choice(["to_string", "to_string", "to_string", "str", "ext", "force"])
             nspair = None
-            if form == "to_string" and rng.random() < 0.6:
+            if form == "force":
+                nspair = force_nspair(rng, inst_namespaces(inst))
+            elif form == "to_string" and rng.random() < 0.6:
                 nspair = gen_nspair(rng, inst_namespaces(inst), rng.choice(NSPAIR_KINDS), registered)
                 registered += [p for p in (nspair or {}) if p]
             steps.append({"inst": inst, "form": form, "nspair": nspair})
+            if rng.random() < 0.4:  # the very same object once more, plainly
+                steps.append({"inst": inst, "form": "to_string", "nspair": None, "reuse": True})
         last = steps[-1]["inst"]
         u = rng.choice(inst_namespaces(last))
         if rng.random() < 0.5 and u != XMLNS and empty_prefix_safe(last, u):
@@ -1176,6 +1308,10 @@ def gen_cases(rng, tier):
     for c in ctor_default_cases(rng):
         yield c
     for c in history_cases(rng, tier):
+        yield c
+    for c in selfcontained_cases(rng, tier):
+        yield c
+    for c in construct_cases(rng, tier):
         yield c
     per_rt = 10 if tier == "quick" else 80
     per_parse = 5 if tier == "quick" else 40
@@ -1294,7 +1430,7 @@ def gen_cases(rng, tier):
         if what in ("text", "attr") and n <= 300_000:
             cid = inst["c"]
             tree = {"q": class_tag(tbl[cid]), "a": [[tbl[cid]["attrs"][0][0], inst["a"][0]]] if inst["a"][0] is not None else [],
-                    "t": inst["t"], "k": []}
+                    "t": inst["t"] or None, "k": []}
             yield mk_parse(cid, tree, rng)
 
 
@@ -1319,42 +1455,136 @@ def search_cases(rng, broken, build_log):
 # ------------------------------------------------------------------ implementation side
 
 
-def run_step(inst, form, nspair):
-    """Serialise the instance through one public form, parse it back, reflect, serialise again."""
+def align_attr_order(orig, got):
+    """Forms that rewrite attribute names on the generated tree (set_prefixes) move the rewritten attributes to the
+    end: where the re-parsed attribute DICT equals the original one, report it in the original order (the order of
+    attributes is outside the comparison for these forms)."""
+    def pairs(l):
+        return sorted(map(tuple, l))
+
+    def ext(a, b):
+        if pairs(a["a"]) == pairs(b["a"]):
+            b = dict(b, a=a["a"])
+        if len(a["k"]) == len(b["k"]):
+            b = dict(b, k=[ext(x, y) for x, y in zip(a["k"], b["k"])])
+        return b
+
+    if orig["c"] != got["c"]:
+        return got
+    if pairs(orig["ea"]) == pairs(got["ea"]):
+        got = dict(got, ea=orig["ea"])
+    if len(orig["ee"]) == len(got["ee"]):
+        got = dict(got, ee=[ext(x, y) for x, y in zip(orig["ee"], got["ee"])])
+    if [len(x) for x in orig["s"]] == [len(x) for x in got["s"]]:
+        got = dict(got, s=[[align_attr_order(x, y) for x, y in zip(a, b)] for a, b in zip(orig["s"], got["s"])])
+    return got
+
+
+SAML_ASSERTION_TAG = "{urn:oasis:names:tc:SAML:2.0:assertion}Assertion"
+
+
+def run_step(inst, form, nspair, obj=None):
+    """Serialise the instance through one public form, parse it back, reflect, serialise again.
+    The object is snapshot (member by member, extension attributes and elements with their attribute dicts)
+    before and after: serialising must not change it."""
     import saml2
     from xml.etree import ElementTree
 
-    obj = build(inst)
+    obj = build(inst) if obj is None else obj
     cid = inst["c"]
+
+    def prep(o):
+        if form == "selfcontained":
+            # the path an IdP takes before encrypting: Response.encrypted_assertion holds ONE EncryptedAssertion
+            # whose extension element is the assertion
+            ea = o.encrypted_assertion
+            if isinstance(ea, list) and len(ea) == 1:
+                o.encrypted_assertion = ea[0]
+        return o
 
     def ser(o):
         if form == "ext":
             return saml2.element_to_extension_element(o).to_string()
         if form == "to_string":
             return o.to_string(nspair) if nspair is not None else o.to_string()
+        if form == "force":
+            return o.to_string_force_namespace(nspair)
+        if form == "selfcontained":
+            return o.get_xml_string_with_self_contained_assertion_within_encrypted_assertion(SAML_ASSERTION_TAG)
         return str(o)
 
+    snap0 = reflect(obj, cid, out=False)
+    same_form = form in ("ext", "force", "selfcontained")
     try:
-        s = ser(obj)
+        s = ser(prep(obj))
         if isinstance(s, bytes):
             s = s.decode("utf-8")
+        snap1 = reflect(obj, cid, out=False)
         p = parse_with(cid, s)
-        # second serialisation: plain for the to_string/str forms, the same form for the extension-element form
-        s2 = None if p is None else (ser(p) if form == "ext" else p.to_string())
+        # second serialisation: plain for the to_string/str forms, the same form for the others
+        s2 = None if p is None else (ser(prep(p)) if same_form else p.to_string())
         if isinstance(s2, bytes):
             s2 = s2.decode("utf-8")
+    except Unusable as e:
+        return {"r": "raised", "exc": "Unusable: %s" % e}
     except Exception as e:  # whatever the real code raises here is the observable "raised"
         return {"r": "raised", "exc": type(e).__name__}
+    if snap1 != snap0:
+        return {"r": "raised", "exc": "object changed by serialising it"}
     if p is None:
         return {"r": "raised", "exc": "None"}
     try:
         o = reflect(p, cid)
     except Unusable as e:
         return {"r": "raised", "exc": "Unusable: %s" % e}
+    if form in ("force", "selfcontained"):
+        o = align_attr_order(_norm_inst(inst), o)
     # the order of the root's children in the written document, read with the plain parser
     # (independent of pysaml2's object model)
     order = [list(classtable.split_clark(ch.tag)) for ch in ElementTree.fromstring(s.encode("utf-8"))]
     return {"r": "obj", "o": o, "same": s2 == s, "order": order}
+
+
+def run_history(steps):
+    # nothing is reset between the steps: module-level state left by one step is met by the next, and a step
+    # marked `reuse` serialises the very object the previous step built
+    out, prev = [], None
+    for st in steps:
+        obj = prev[1] if st.get("reuse") and prev is not None and prev[0] == st["inst"] else build(st["inst"])
+        out.append(run_step(st["inst"], st["form"], st["nspair"], obj))
+        prev = (st["inst"], obj)
+    return {"steps": out}
+
+
+def _json_value(v):
+    if isinstance(v, dict) and "bytes" in v:
+        return v["bytes"].encode("utf-8")
+    return v
+
+
+def run_construct(case):
+    """Build the object through the REAL constructor / set_type / set_text from the recipe, report the state it is
+    in (the instance the property talks about) and its round trip."""
+    cls = _S["cls"][case["cls"]]
+    text = _json_value(case["text"])
+    ee = [build_ext(e) for e in case.get("ee", [])]
+    try:
+        if case["how"] == "ctor":
+            obj = cls(text=text, extension_elements=ee or None)
+        elif case["how"] == "set_text":
+            obj = cls(extension_elements=ee or None)
+            obj.set_text(text)
+        else:  # typed: AttributeValue only
+            obj = cls(extension_elements=ee or None)
+            obj.set_type(case["type"])
+            obj.set_text(text)
+    except (ValueError, TypeError) as e:
+        return {"r": "refused", "exc": type(e).__name__}   # the constructor refuses the arguments: nothing to round-trip
+    try:
+        state = reflect(obj, case["cls"], out=False)
+    except Unusable as e:
+        return {"r": "refused", "exc": "Unusable: %s" % e}  # e.g. non-string text on a plain class: no instance
+    return {"r": "built", "state": state, "rt": run_step(state, "str", None, obj)}
 
 
 def run_impl(case):
@@ -1366,8 +1596,9 @@ def run_impl(case):
     if case["op"] == "rt":
         return run_step(case["inst"], "str", None)
     if case["op"] == "history":
-        # nothing is reset between the steps: module-level state left by one step is met by the next
-        return {"steps": [run_step(st["inst"], st["form"], st["nspair"]) for st in case["steps"]]}
+        return run_history(case["steps"])
+    if case["op"] == "construct":
+        return run_construct(case)
     if case["op"] == "xsdorder":
         from xml.etree import ElementTree
 
@@ -1412,6 +1643,10 @@ def compare(case, impl, model):
             if {k: v for k, v in ist.items() if k not in drop} != {k: v for k, v in mst.items() if k not in drop}:
                 return False
         return True
+    if case.get("op") == "construct":
+        if impl.get("r") != "built":
+            return isinstance(model, dict) and model.get("r") == "refused"
+        return isinstance(model, dict) and {k: v for k, v in impl["rt"].items() if k != "exc"} == model.get("rt")
     i = {k: v for k, v in impl.items() if k != "exc"}
     return i == model
 
@@ -1467,9 +1702,15 @@ def _diff(a, b, out):
             out.append("avstrip")
         else:
             out.append("other")
-    if a["ea"] != b["ea"] and is_av and not a["t"] and not a["ee"] and any(k == "{%s}type" % XSI for k, _ in a["ea"]) \
-            and b["ea"] == [["{%s}nil" % XSI, "true"]] + [p for p in a["ea"] if not p[0].startswith("xmlns:")]:
+    no_xmlns = [p for p in a["ea"] if not p[0].startswith("xmlns:")]
+    has_type = any(k == "{%s}type" % XSI for k, _ in a["ea"])
+    if a["ea"] != b["ea"] and is_av and not a["t"] and has_type and \
+            b["ea"] == ([] if a["ee"] else [["{%s}nil" % XSI, "true"]]) + no_xmlns:
+        # a type but no text: xmlns:xs is not restored (and, without extension elements, xsi:nil is added)
         out.append("avtypeonly")
+    elif a["ea"] != b["ea"] and is_av and a["ee"] and a["t"] and not a["t"].strip() and b["ea"] == no_xmlns:
+        # whitespace-only text next to extension elements is stripped to nothing: same as above, by the strip
+        out.append("avstrip")
     elif a["ea"] != b["ea"]:
         xs_last = [k for k, _ in a["ea"]].index("xmlns:xs") < len(a["ea"]) - 1 if any(k == "xmlns:xs" for k, _ in a["ea"]) else False
         xsd_last = [k for k, _ in a["ea"]].index("xmlns:xsd") < len(a["ea"]) - 1 if any(k == "xmlns:xsd" for k, _ in a["ea"]) else False
@@ -1488,6 +1729,9 @@ KEYS = {"nf": K_NAMEFORMAT, "cr": K_CR, "avstrip": K_AVSTRIP, "avreorder": K_AVR
         "avtypeonly": K_AVTYPEONLY}
 
 
+AV_NOTES = {"avstrip": "av-strip", "avreorder": "av-reorder", "avtypeonly": "av-typeonly"}
+
+
 def _unset_member(i):
     """Some node of the instance belongs to a class whose constructor does not create a member its
     class table declares, and the instance gives that member no value."""
@@ -1502,13 +1746,33 @@ def finding_key(case, impl, lean):
     """A recorded key only when EVERY difference between the instance and its re-parse has that one root cause."""
     if case.get("op") == "rt" and impl.get("r") == "raised" and impl.get("exc") == "AttributeError" and _unset_member(case["inst"]):
         return K_CTORMEMBER
+    if case.get("op") == "history":
+        # names the repaired defect when exactly the self-contained steps of an xml:-carrying instance stop parsing
+        bad = [(cs, st) for cs, st in zip(case["steps"], impl.get("steps", [])) if st.get("r") != "obj" or not st.get("same")]
+        if bad and all(cs["form"] == "selfcontained" and st.get("exc") == "ParseError" and XMLNS in json.dumps(cs["inst"])
+                       for cs, st in bad):
+            return K_SELFCONTAINED_XML
+        return None
+    if case.get("op") == "construct":
+        # the recipe says which recorded AttributeValue behaviour (if any) it is MEANT to reach; a state with a type
+        # but no text reached from arguments that do not ask for one is not covered by the known finding
+        rt = impl.get("rt") or {}
+        if impl.get("r") != "built" or rt.get("r") != "obj" or not case.get("allow"):
+            return None
+        out = []
+        _diff(_norm_inst(impl["state"]), _norm_inst(rt["o"]), out)
+        return KEYS[case["allow"]] if set(out) == {case["allow"]} else None
     if case.get("op") != "rt" or impl.get("r") != "obj":
         return None
     out = []
     _diff(_norm_inst(case["inst"]), _norm_inst(impl["o"]), out)
     kinds = set(out)
     if len(kinds) == 1 and "other" not in kinds:
-        return KEYS[kinds.pop()]
+        kind = kinds.pop()
+        # the AttributeValue findings are only expected in the cases designated for them
+        if kind in AV_NOTES and case.get("note") != AV_NOTES[kind]:
+            return None
+        return KEYS[kind]
     return None
 
 
@@ -1516,6 +1780,10 @@ def finding_key(case, impl, lean):
 
 
 def shrink(case):
+    if case["op"] == "construct":
+        if case.get("ee"):
+            yield dict(case, ee=[])
+        return
     if case["op"] == "history":
         st = case["steps"]
         for j in range(len(st)):
@@ -1525,6 +1793,8 @@ def shrink(case):
             if st[j]["nspair"] and len(st[j]["nspair"]) > 1:
                 for k in st[j]["nspair"]:
                     yield mk_history(st[:j] + [dict(st[j], nspair={k: st[j]["nspair"][k]})] + st[j + 1:], case.get("note"))
+            if any(x["form"] == "selfcontained" for x in st):
+                continue  # that form needs the Response / EncryptedAssertion / assertion structure as it is
             for v in shrink(mk_rt(st[j]["inst"])):
                 if v["op"] == "rt" and v["inst"]["c"] == st[j]["inst"]["c"]:
                     yield mk_history(st[:j] + [dict(st[j], inst=v["inst"])] + st[j + 1:], case.get("note"))
@@ -1596,6 +1866,8 @@ def distribution(recs):
                 key = "form:%s:%s" % (st["form"], "nspair" if st["nspair"] is not None else "plain")
                 d.setdefault("history_steps", {})
                 d["history_steps"][key] = d["history_steps"].get(key, 0) + 1
+        elif c["op"] == "construct":
+            pass
         elif c["op"] == "parse":
             cpa.add(c["cls"])
         else:
